@@ -793,6 +793,16 @@ func stages() []stage {
 		specStage("route-duplicate-path", "route-build", "rdup.yaml", specHead+"paths:\n  /a/{x}:\n    get:\n      parameters: ["+pathParam("x", "string")+"]\n"+okResp+"  /a/{y}:\n    get:\n      parameters: ["+pathParam("y", "string")+"]\n"+okResp, true),
 		specStage("route-duplicate-path-escaped", "route-build", "rdup2.yaml", specHead+"paths:\n  /a/b:\n    get:\n"+okResp+"  /a/%62:\n    get:\n"+okResp, true),
 		specStage("route-adjacent-parameters", "route-build", "radj.yaml", specHead+"paths:\n  /a/{x}{y}:\n    get:\n      parameters: ["+pathParam("x", "string")+","+pathParam("y", "string")+"]\n"+okResp, true),
+		// failures under the diagnostic flags (profiles are written into cwd, never into the target)
+		{Name: "memprofile+spec-malformed", Group: "spec-parse", Flags: []string{"--memprofile", "mem.prof"}, Pos: []string{"bad.yaml"},
+			Files: map[string]string{"bad.yaml": "openapi: \"3.0.3\"\ninfo: [\n"}, Expect: true},
+		{Name: "memprofile+rate+route-conflict", Group: "route-build", Flags: []string{"--memprofile", "mem.prof", "--memprofilerate", "4096"}, Pos: []string{"radj.yaml"},
+			Files: map[string]string{"radj.yaml": specHead + "paths:\n  /a/{x}{y}:\n    get:\n      parameters: [" + pathParam("x", "string") + "," + pathParam("y", "string") + "]\n" + okResp}, Expect: true},
+		{Name: "cpuprofile+ir-conflict", Group: "ir-build", Flags: []string{"--cpuprofile", "cpu.prof"}, Pos: []string{"opconf.yaml"},
+			Files: map[string]string{"opconf.yaml": specHead + "paths:\n  /a:\n    get:\n      operationId: foo\n" + okResp + "  /b:\n    get:\n      operationId: Foo\n" + okResp}, Expect: true},
+		{Name: "verbose+debug-log+spec-dangling-ref", Group: "spec-validation", Flags: []string{"-v", "--loglevel", "debug"}, Pos: []string{"badref.yaml"},
+			Files: map[string]string{"badref.yaml": specHead + "paths: {}\ncomponents:\n  schemas:\n    A: {$ref: \"#/components/schemas/Nope\"}\n"}, Expect: true},
+		{Name: "memprofile+config-missing", Group: "config", Flags: []string{"--memprofile", "mem.prof", "--config", "nope.yml"}, Pos: okPos, Files: ok, Expect: true},
 		// the configuration asks for the expanded document to be written INTO the target; generation fails later
 		{Name: "expand-into-target-then-route-conflict", Group: "route-build", Flags: []string{"--config", "cfg.yml"}, Pos: []string{"radj.yaml"},
 			Files: map[string]string{"cfg.yml": "expand: ../target/openapi_expanded.yml\n",
@@ -920,8 +930,20 @@ func checkFailureStage(bin string, prev map[string][]byte, st stage, c fcase) *v
 		return nil
 	}
 	var tgt, stray diff
+	// files the caller asked for by name (--memprofile / --cpuprofile <file>) and the directory they are
+	// created in are no stray files
+	asked := map[string]bool{}
+	for i, f := range st.Flags {
+		if (f == "--memprofile" || f == "--cpuprofile") && i+1 < len(st.Flags) {
+			asked["cwd/"+st.Flags[i+1]] = true
+			asked["cwd"] = true
+		}
+	}
 	split := func(in []string, a, b *[]string) {
 		for _, p := range in {
+			if asked[p] {
+				continue
+			}
 			if underTarget(w, p) {
 				*a = append(*a, p)
 			} else {
@@ -934,6 +956,8 @@ func checkFailureStage(bin string, prev map[string][]byte, st stage, c fcase) *v
 	split(d.Modified, &tgt.Modified, &stray.Modified)
 	tailMsg := fmt.Sprintf("exit %d; %s\nstderr: %s", r.Exit, d, firstLines(r.Stderr, 6))
 	switch {
+	case len(tgt.Removed)+len(tgt.Created)+len(tgt.Modified)+len(stray.Removed)+len(stray.Created)+len(stray.Modified) == 0:
+		return nil
 	case len(tgt.Removed) > 0:
 		return vk.F("failure-removed-target-files", "%s failed before writing but entries of the target were removed: %s", desc, tailMsg)
 	case c.State.Absent && len(tgt.Created) > 0:
